@@ -231,7 +231,13 @@ def assemble(prop, tier, seed, unit_results, fn_results, wall):
                 ob = dict(ob, verdict="undecided", reason="engine disagrees with CPython on this function (cross-check)")
             obligations.append({"name": ob["name"], "verdict": ob["verdict"], "backend": ob["backend"] or "z3",
                                 "seconds": ob["seconds"], "unit": tag})
-            if ob["verdict"] == "refuted":
+            if ob["verdict"] == "refuted" and "candidate model" in (ob["backend"] or "") and (ob.get("replay") or {}).get("status") != "confirmed":
+                # a candidate counter-model (relaxed / finite instance of the hypotheses) that the real code does not confirm
+                # decides nothing
+                obligations[-1]["verdict"] = "undecided"
+                undecided.append({"obligation": ob["name"], "unit": tag, "reason": "candidate counter-model not confirmed by the replay on the real code "
+                                  f"({(ob.get('replay') or {}).get('status')}): {ob.get('reason') or ''}"[:300]})
+            elif ob["verdict"] == "refuted":
                 violations.append({"obligation": ob["name"], "unit": tag, "kind": "vc", "model": ob.get("model"),
                                    "replay": ob.get("replay"), "solver": ob["backend"], "target": u["target"]})
             elif ob["verdict"] == "undecided":
